@@ -187,3 +187,4 @@ def run(ck, prog):
 
 
 EXPLANATION += (' balance(): every update of a scale entry is multiplicative (scale[i] accumulates the factors of all sweeps); hqr2: the exceptional shift is subtracted from the diagonal entries 0..=nn of the active block (E2-provenance; three independent seeds each).')
+
